@@ -141,3 +141,67 @@ func H_C11_caller() {
 	}
 	vReach("end")
 }
+
+//verif:witness H_C11_sequence end
+//verif:bound C11 all sequences: four log calls from four adjacent call sites in one function (fast or default mode), each record must carry its own line (modelled program counters of adjacent call sites are 5 apart, the size of a call instruction); caller lookup switched on->off and off->on between two events through a sync logger that recycles its Event objects
+
+var vSeqTag *Tag
+
+//go:noinline
+func vRec2() { Record(context.Background(), InfoLevel, vSeqTag, 2, Msg("m")) }
+
+// vFourAdj: four argument-less calls on consecutive lines (natively 5 bytes apart each).
+//
+//go:noinline
+func vFourAdj(lines *[4]int) {
+	_, _, l0, _ := runtime.Caller(0)
+	vRec2()
+	vRec2()
+	vRec2()
+	vRec2()
+	for i := range lines {
+		lines[i] = l0 + 1 + i
+	}
+}
+
+func H_C11_sequence() {
+	savedEnable, savedFast := enableCaller, fastCaller
+	defer func() { enableCaller, fastCaller = savedEnable, savedFast }()
+	app := &vRecAppender{}
+	all := LevelRange{MinLevel: NoneLevel, MaxLevel: MaxLevel}
+	logger := &SyncLogger{LoggerBase: LoggerBase{Name: "l", Level: all}}
+	logger.AppenderRefs.AppenderRefs = []*AppenderRef{{Appender: app, Level: all}}
+	tag := &Tag{tag: "_t_x", logger: logger}
+	fastCaller = vChoose("fast", 2) == 1
+	if vChoose("scenario", 2) == 0 {
+		enableCaller = true
+		var lines [4]int
+		vSeqTag = tag
+		vFourAdj(&lines)
+		vFourAdj(&lines) // second round: frame-cache hits
+		vAssert(app.appends == 8, "events-emitted")
+		if app.appends == 8 {
+			for i := 0; i < 8; i++ {
+				vAssert(app.events[i].Line == lines[i%4], "each-call-site-reports-its-own-line")
+			}
+		}
+	} else {
+		first := vChoose("firstEnabled", 2) == 1
+		enableCaller = first
+		vLogAt(4, tag)
+		enableCaller = !first
+		vLogAt(8, tag)
+		vAssert(app.appends == 2, "events-emitted")
+		if app.appends == 2 {
+			for i, on := range [2]bool{first, !first} {
+				e := app.events[i]
+				if on {
+					vAssert(e.File != "" && e.Line != 0, "location-present-when-enabled")
+				} else {
+					vAssert(e.File == "" && e.Line == 0, "location-empty-when-caller-lookup-disabled")
+				}
+			}
+		}
+	}
+	vReach("end")
+}
